@@ -330,6 +330,7 @@ class Driver:
                     time.sleep(self.rng.random() * self.jitter)
                 self.cur = dict(op=op, **a)
                 self.deadline = time.time() + self.step_timeout
+                t_op = time.time()
                 try:
                     rc, out = getattr(self, "op_" + op)(a)
                     ev = {"e": op, "a": a, "rc": rc if isinstance(rc, str) else self.L.errname(rc), "out": out}
@@ -340,8 +341,12 @@ class Driver:
                 if not st.get("nosync"):
                     self.barrier()
                 obs = {}
+                t_op = time.time() - t_op
                 self.deadline = time.time() + self.step_timeout
                 for o in st.get("obs", []):
+                    if o == "ms":        # wall time of the call itself
+                        obs["ms"] = int(t_op * 1000)
+                        continue
                     try:
                         obs[o] = getattr(self, "obs_" + o)(a)
                     except Exception as ex:
@@ -501,6 +506,46 @@ class Driver:
     def op_noop(self, a):
         return 0, {}
 
+    def op_readall(self, a):
+        """C19: read every variable of whatever schema the (possibly malformed) file presented -- whole, through the
+        collective API, into a buffer sized from the library's own reports (bounded); -> first error or NC_NOERR"""
+        nc = self.L.nc
+        ncid = self.ncid(a)
+        nv = c_int(0)
+        e = nc.ncmpi_inq_nvars(ncid, byref(nv))
+        if e != 0:
+            return e, {}
+        first, done = 0, 0
+        for v in range(min(nv.value, 64)):
+            nd, xt = c_int(0), c_int(0)
+            e = nc.ncmpi_inq_varndims(ncid, v, byref(nd)) or nc.ncmpi_inq_vartype(ncid, v, byref(xt))
+            if e != 0:
+                first = first or e
+                continue
+            if not (0 <= nd.value <= 32):
+                continue
+            dimids = (c_int * max(1, nd.value))()
+            nc.ncmpi_inq_vardimid(ncid, v, dimids)
+            n, ok = 1, True
+            for k in range(nd.value):
+                ln = c_longlong(-1)
+                if nc.ncmpi_inq_dimlen(ncid, dimids[k], byref(ln)) != 0 or ln.value < 0:
+                    ok = False
+                    break
+                n *= ln.value
+            if not ok or n > 200000:
+                continue
+            if xt.value == 2:
+                buf = (c_ubyte * max(1, n))()
+                e = nc.ncmpi_get_var_text_all(ncid, v, buf)
+            else:
+                buf = (ctypes.c_double * max(1, n))()
+                e = nc.ncmpi_get_var_double_all(ncid, v, buf)
+            done += 1
+            if e != 0 and e != -60:      # NC_ERANGE is a per-element condition, not a failure of the read
+                first = first or e
+        return first, {"read": done}
+
     def op_mkdir(self, a):
         """rank 0 creates a directory inside the execution's scratch directory (e.g. for burst-buffer logs)"""
         if self.rank == 0:
@@ -580,6 +625,9 @@ class Driver:
         if e != 0:
             return e, {}
         out = {"type": t.value, "len": ln.value}
+        if not (0 <= ln.value <= 4000000):       # (malformed input: do not size a buffer from an implausible length)
+            out["vals"] = "HUGE"
+            return e, out
         it = itype or NATIVE_ITYPE.get(NC_TYPE_NAMES.get(t.value), "double")
         ct = ITYPES[it][0]
         buf = Buf(ct, max(1, ln.value))
@@ -1177,6 +1225,11 @@ class Driver:
         d = self.path(a.get("dir", "bb"))
         return sorted(os.listdir(d)) if os.path.isdir(d) else ["<no directory>"]
 
+    def obs_rss(self, a):
+        """peak resident set size of this process so far, MiB"""
+        import resource
+        return resource.getrusage(resource.RUSAGE_SELF).ru_maxrss // 1024
+
     def obs_filesize(self, a):
         if self.rank != 0:
             return None
@@ -1202,8 +1255,10 @@ class Driver:
         e = nc.ncmpi_inq(ncid, byref(nd), byref(nv), byref(na), byref(ud))
         if e != 0:
             return {"rc": L.errname(e)}
-        nm = ctypes.create_string_buffer(1024)
+        nm = ctypes.create_string_buffer(1 << 17)
         o = {"unlim": ud.value, "dims": [], "vars": [], "gatts": self._atts(ncid, -1, na.value)}
+        if not (0 <= nd.value <= 100000 and 0 <= nv.value <= 100000 and 0 <= na.value <= 100000):
+            return {"rc": "IMPLAUSIBLE_COUNTS", "counts": [nd.value, nv.value, na.value]}
         for d in range(nd.value):
             ln = c_longlong(-1)
             nc.ncmpi_inq_dim(ncid, d, nm, byref(ln))
@@ -1211,6 +1266,9 @@ class Driver:
         for v in range(nv.value):
             xt, vnd, vna = c_int(), c_int(), c_int()
             nc.ncmpi_inq_varndims(ncid, v, byref(vnd))
+            if not (0 <= vnd.value <= 100000):
+                o["vars"].append({"name": "?", "type": -1, "dimids": [-1], "atts": [], "ndims": vnd.value})
+                continue
             dimids = (c_int * max(1, vnd.value))()
             nc.ncmpi_inq_var(ncid, v, nm, byref(xt), byref(vnd), dimids, byref(vna))
             o["vars"].append({"name": nm.value.decode("utf-8", "replace"), "type": xt.value,
@@ -1234,7 +1292,7 @@ class Driver:
 
     def _atts(self, ncid, v, n):
         nc = self.L.nc
-        nm = ctypes.create_string_buffer(1024)
+        nm = ctypes.create_string_buffer(1 << 17)
         out = []
         for i in range(n):
             e = nc.ncmpi_inq_attname(ncid, v, i, nm)
@@ -1242,6 +1300,9 @@ class Driver:
                 out.append({"rc": self.L.errname(e)})
                 continue
             e, g = self._get_att(ncid, v, nm.value)
+            if e != 0 and "type" not in g:
+                out.append([nm.value.decode("utf-8", "replace"), -1, -1, "ERR:" + self.L.errname(e)])
+                continue
             out.append([nm.value.decode("utf-8", "replace"), g.get("type"), g.get("len"), g.get("vals")])
         return out
 
